@@ -12,6 +12,8 @@ def seq_of_values(I, base, val, n, kind='list'):
     if is_scalar(val):
         cols = [z3.Array(I.reg.fresh(base), z3.IntSort(), sort_of_value(val))]
         return SymSeq(n, cols, None, kind, base)
+    if isinstance(val, Opaque):
+        return SymSeq(n, [z3.Array(I.reg.fresh(base), z3.IntSort(), val.term.sort())], None, kind, base)
     if isinstance(val, (tuple, list)) and all(is_scalar(x) for x in val):
         cols = [z3.Array(I.reg.fresh(base + ".c%d" % i), z3.IntSort(), sort_of_value(x)) for i, x in enumerate(val)]
         return SymSeq(n, cols, len(val), 'ndarray' if isinstance(val, RowVal) else kind, base)
@@ -47,7 +49,7 @@ def comprehension(ctx, e, sc):
         I.merge_depth -= 1
     out = seq_of_values(I, 'comp', val, n)
     vals = list(val) if out.width is not None else [val]
-    body = z3.And(*[z3.Select(c, k) == to_z3(v, sort=c.range()) for c, v in zip(out.cols, vals)])
+    body = z3.And(*[z3.Select(c, k) == (v.term if isinstance(v, Opaque) else to_z3(v, sort=c.range())) for c, v in zip(out.cols, vals)])
     I.assume(z3.ForAll([k], z3.Implies(guard, body), patterns=[z3.Select(out.cols[0], k)]))
     for x in extra:
         I.assume(z3.ForAll([k], z3.Implies(guard, x), patterns=[z3.Select(out.cols[0], k)]))
@@ -55,8 +57,22 @@ def comprehension(ctx, e, sc):
     return out
 
 
+def list_of_lazy(ctx, v):
+    """list(range(n)) for symbolic n: the identity sequence."""
+    I = ctx.I
+    from .lib import LazyIter
+    if isinstance(v, LazyIter) and v.kind == 'range':
+        n, el = v.symbolic()
+        a = z3.Array(I.reg.fresh('range'), z3.IntSort(), z3.IntSort())
+        k = z3.Int(I.reg.fresh('rk'))
+        I.assume(z3.ForAll([k], z3.Implies(z3.And(k >= 0, k < n), z3.Select(a, k) == to_z3(el(k))), patterns=[z3.Select(a, k)]))
+        return SymSeq(n, [a], None, 'list', 'range')
+    raise OutOfSubset("list(%r)" % (v,))
+
+
 def install(I):
     I.models.setdefault('comprehension', comprehension)
+    I.models.setdefault('list.fallback', list_of_lazy)
 
 
 # ------------------------------------------------------------------------------------------------
